@@ -12,6 +12,8 @@ import AfkakProps.C05
 import AfkakProps.Open.C04
 import AfkakProofs.Wire.GenEq
 import AfkakProofs.Wire.GenEqCodec
+import AfkakProofs.Wire.GenEqGrouped
+import AfkakProofs.Wire.GenEqAssign
 /-!
 # C04 — every request on the wire conforms to the Kafka protocol grammar
 
@@ -1051,6 +1053,60 @@ theorem C04_generated_encode_join_group_protocol_metadata_eq_model (version : In
     genEncodeJoinGroupProtocolMetadata version subs ud = encodeJoinGroupProtocolMetadata version subs ud :=
   gen_encodeJoinGroupProtocolMetadata version subs ud
 
+/-- `_util.group_by_topic_and_partition` (the grouping every broker-aware encoder starts with), for any
+    payload type: the loop over a `defaultdict(dict)` never raises and computes the model's grouping
+    (insertion order, a repeated (topic, partition) keeps its place and the last payload). -/
+theorem C04_generated_group_by_topic_and_partition_eq_model {α : Type} (topic : α → Option Bytes)
+    (partition : α → Int) (xs : List α) :
+    genGroupByTopicAndPartition topic partition xs = .ok (groupByTopicPartition topic partition xs) :=
+  gen_groupBy topic partition xs
+
+/-- `kafkacodec._group_payloads`: the grouping plus the refusal (`ValueError`) of a list that names a
+    (topic, partition) twice (`sum(len(..) for .. in grouped.values()) != len(payloads)`) -/
+theorem C04_generated_group_payloads_eq_model {α : Type} (topic : α → Option Bytes) (partition : α → Int)
+    (xs : List α) :
+    genGroupPayloads topic partition xs =
+      (if payloadCount (groupByTopicPartition topic partition xs) ≠ xs.length then .error .valueError
+       else .ok (groupByTopicPartition topic partition xs)) := gen_groupPayloads topic partition xs
+
+/-- `KafkaCodec.encode_fetch_request`: grouping, the `api_version >= 2` clamp, the header, the fixed
+    fields and the two nested loops over topics and partitions -/
+theorem C04_generated_encode_fetch_request_eq_model (cid : Bytes) (corr : Int) (payloads : List FetchReq)
+    (mw mb ver : Int) :
+    genEncodeFetchRequest FetchReq.topic FetchReq.partition FetchReq.offset FetchReq.maxBytes cid corr payloads mw mb ver
+      = encodeFetchRequest cid corr payloads mw mb ver := gen_encodeFetch cid corr payloads mw mb ver
+
+/-- `KafkaCodec.encode_offset_request` (ListOffsets) -/
+theorem C04_generated_encode_offset_request_eq_model (cid : Bytes) (corr : Int) (payloads : List OffsetReq) :
+    genEncodeOffsetRequest OffsetReq.topic OffsetReq.partition OffsetReq.time OffsetReq.maxOffsets cid corr payloads
+      = encodeOffsetRequest cid corr payloads := gen_encodeOffset cid corr payloads
+
+/-- `KafkaCodec.encode_offset_commit_request` (v1) including `assert consumer_id is not None` -/
+theorem C04_generated_encode_offset_commit_request_eq_model (cid : Bytes) (corr : Int) (group : Option Bytes)
+    (gen : Int) (consumer : Option Bytes) (payloads : List OffsetCommitReq) :
+    genEncodeOffsetCommitRequest OffsetCommitReq.topic OffsetCommitReq.partition OffsetCommitReq.offset
+        OffsetCommitReq.timestamp OffsetCommitReq.metadata cid corr group gen consumer payloads
+      = encodeOffsetCommitRequest cid corr group gen consumer payloads :=
+  gen_encodeOffsetCommit cid corr group gen consumer payloads
+
+/-- `KafkaCodec.encode_offset_fetch_request` (v1) -/
+theorem C04_generated_encode_offset_fetch_request_eq_model (cid : Bytes) (corr : Int) (group : Option Bytes)
+    (payloads : List OffsetFetchReq) :
+    genEncodeOffsetFetchRequest OffsetFetchReq.topic OffsetFetchReq.partition cid corr group payloads
+      = encodeOffsetFetchRequest cid corr group payloads := gen_encodeOffsetFetch cid corr group payloads
+
+/-- `KafkaCodec.encode_metadata_request` (a list of parts joined with `b"".join`) -/
+theorem C04_generated_encode_metadata_request_eq_model (cid : Bytes) (corr : Int) (topics : List (Option Bytes)) :
+    genEncodeMetadataRequest cid corr topics = encodeMetadataRequest cid corr topics :=
+  gen_encodeMetadata cid corr topics
+
+/-- `KafkaCodec.encode_sync_group_member_assignment` (what the group leader sends each member): the
+    loop over `assignments.items()` with the counted format `">i%si" % len(partitions)` -/
+theorem C04_generated_encode_sync_group_member_assignment_eq_model (version : Int)
+    (asg : List (Option Bytes × List Int)) (ud : Option Bytes) :
+    genEncodeSyncGroupMemberAssignment version asg ud = encodeSyncGroupMemberAssignment version asg ud :=
+  gen_encodeSyncGroupMemberAssignment version asg ud
+
 end Afkak.Props.C04
 
 /- OBLIGATIONS
@@ -1111,6 +1167,14 @@ C04_generated_encode_heartbeat_request_eq_model
 C04_generated_encode_sync_group_request_eq_model
 C04_generated_encode_join_group_request_eq_model
 C04_generated_encode_join_group_protocol_metadata_eq_model
+C04_generated_group_by_topic_and_partition_eq_model
+C04_generated_group_payloads_eq_model
+C04_generated_encode_fetch_request_eq_model
+C04_generated_encode_offset_request_eq_model
+C04_generated_encode_offset_commit_request_eq_model
+C04_generated_encode_offset_fetch_request_eq_model
+C04_generated_encode_metadata_request_eq_model
+C04_generated_encode_sync_group_member_assignment_eq_model
 -/
 /- OPEN_STATEMENTS
 -/
